@@ -264,6 +264,10 @@ func runC04(c *core.Ctx) {
 	c.Section("app-padding", c.N(60000, 1500000), func(cs *core.Case) {
 		r := cs.R
 		v := gen.Packet(r, gen.APP, gen.Opts{}).(*rtcp.ApplicationDefined)
+		if cs.Idx%256 == 0 {
+			// large payloads: 64 KiB and more on the wire (where 16-bit byte arithmetic wraps), up to the maximum frame
+			v.Data = r.Bytes(r.Pick(65517, 65518, 65519, 65520, 65521, 65522, 65523, 65524, 65528, 65536, 100000, 131072, 196608, 262120))
+		}
 		base := pad4local(len(v.Data))
 		for j := 0; j <= 2; j++ {
 			pad := base + 4*j
@@ -277,6 +281,9 @@ func runC04(c *core.Ctx) {
 				b = append(b, fill...)
 			}
 			w := len(b)/4 - 1
+			if w > 0xFFFF {
+				continue
+			}
 			b[2], b[3] = byte(w>>8), byte(w)
 			c04Decode(cs, fmt.Sprintf("app-padding/%d-extra", 4*j), gen.APP, b, v, v)
 		}
